@@ -31,9 +31,13 @@
 (* DelRetry); the mechanics never read it.                                      *)
 EXTENDS Integers, FiniteSets, TLC
 
-CONSTANTS Procs, Hosts, Size, MaxCalls, MaxExpire, Kinds, Faults
+CONSTANTS Procs, Hosts, Size, MaxCalls, MaxExpire, Kinds, Faults, ZeroDuration
 
 Horizon == 1000
+(* Expiry rank of an entry inserted at tick t.  ZeroDuration = TRUE is NewDNSCache(size, 0, ...): an entry *)
+(* expires at the instant it is stored, so it is never served (every lookup resolves) and only takes part *)
+(* in eviction.                                                                                          *)
+InsertRank(t) == IF ZeroDuration THEN t ELSE Horizon + t
 NoAns == [h |-> "", v |-> 0]
 NoEnt == [val |-> NoAns, exp |-> 0]
 
@@ -64,7 +68,7 @@ SeqRead(s, h) == IF h \in DOMAIN s /\ Fresh(s[h]) THEN s[h].val ELSE NoAns
 SeqGC(s, h) == IF h \in DOMAIN s /\ ~Fresh(s[h]) THEN Without(s, h) ELSE s
 RECURSIVE SeqEvict(_)
 SeqEvict(s) == IF Len(s) >= Size /\ DOMAIN s # {} THEN SeqEvict(Without(s, Oldest(s))) ELSE s
-SeqStore(s, h, a, t) == With(SeqEvict(s), h, [val |-> a, exp |-> Horizon + t])
+SeqStore(s, h, a, t) == With(SeqEvict(s), h, [val |-> a, exp |-> InsertRank(t)])
 SeqForget(s, h) == Without(s, h)
 SeqExpire(s, h, t) == [s EXCEPT ![h] = [@ EXCEPT !.exp = t]]
 
@@ -145,7 +149,7 @@ L2Insert(p) ==
   /\ mu = p
   /\ Len(entries) < Size
   /\ tick' = tick + 1
-  /\ entries' = With(entries, loc[p].host, [val |-> loc[p].ans, exp |-> Horizon + tick + 1])
+  /\ entries' = With(entries, loc[p].host, [val |-> loc[p].ans, exp |-> InsertRank(tick + 1)])
   /\ seq' = SeqStore(seq, loc[p].host, loc[p].ans, tick + 1)
   /\ stored' = [stored EXCEPT ![p] = [h |-> loc[p].host, val |-> loc[p].ans]]
   /\ mu' = "free"
@@ -231,6 +235,9 @@ RefinesSequential == mu = "free" => entries = seq
 
 (* A miss returns exactly the answer its own resolver call gave. *)
 MissReturnsOwnAnswer == \A p \in Procs : (loc[p].status = "miss" \/ (loc[p].pc = "dial" /\ ~loc[p].cached)) => loc[p].got = loc[p].ans
+
+(* With a zero lifetime nothing is ever served from the cache. *)
+NeverServedWhenZeroDuration == ZeroDuration => \A p \in Procs : served[p] = NoServed /\ ~loc[p].cached
 
 (* The mutex is held only inside L2. *)
 MutexDiscipline == \A p \in Procs : (mu = p) <=> (loc[p].pc = "L2loop")
